@@ -275,11 +275,11 @@ pub mod tn {
         { unimplemented!() }
         #[verifier::external_body]
         pub fn equal_elem<E: ElemLike>(self, e: E) -> (r: Tensor<B, D, Bool>)
-            ensures b1(r).len() == v1(self).len(), forall |i: int| 0 <= i < v1(self).len() ==> #[trigger] b1(r)[i] == xr_eq(v1(self)[i], e.xr())
+            ensures b1(r).len() == v1(self).len(), forall |i: int| #![trigger b1(r)[i]] #![trigger v1(self)[i]] 0 <= i < v1(self).len() ==> b1(r)[i] == xr_eq(v1(self)[i], e.xr())
         { unimplemented!() }
         #[verifier::external_body]
         pub fn is_nan(self) -> (r: Tensor<B, D, Bool>)
-            ensures b1(r).len() == v1(self).len(), forall |i: int| 0 <= i < v1(self).len() ==> #[trigger] b1(r)[i] == (v1(self)[i] is NaN)
+            ensures b1(r).len() == v1(self).len(), forall |i: int| #![trigger b1(r)[i]] #![trigger v1(self)[i]] 0 <= i < v1(self).len() ==> b1(r)[i] == (v1(self)[i] is NaN)
         { unimplemented!() }
         /// `unsqueeze()` of a [d] tensor to [1, d]
         #[verifier::external_body]
@@ -295,9 +295,9 @@ pub mod tn {
         #[verifier::external_body]
         pub fn into_scalar(self) -> (r: BoolElem) requires b1(self).len() == 1 ensures r.b == b1(self)[0] { unimplemented!() }
         #[verifier::external_body]
-        pub fn bool_or(self, o: Self) -> (r: Self) ensures b1(r).len() == b1(self).len(), forall |i: int| 0 <= i < b1(self).len() ==> #[trigger] b1(r)[i] == (b1(self)[i] || b1(o)[i]) { unimplemented!() }
+        pub fn bool_or(self, o: Self) -> (r: Self) ensures b1(r).len() == b1(self).len(), forall |i: int| #![trigger b1(r)[i]] #![trigger b1(self)[i]] #![trigger b1(o)[i]] 0 <= i < b1(self).len() ==> b1(r)[i] == (b1(self)[i] || b1(o)[i]) { unimplemented!() }
         #[verifier::external_body]
-        pub fn bool_not(self) -> (r: Self) ensures b1(r).len() == b1(self).len(), forall |i: int| 0 <= i < b1(self).len() ==> #[trigger] b1(r)[i] == !b1(self)[i] { unimplemented!() }
+        pub fn bool_not(self) -> (r: Self) ensures b1(r).len() == b1(self).len(), forall |i: int| #![trigger b1(r)[i]] #![trigger b1(self)[i]] 0 <= i < b1(self).len() ==> b1(r)[i] == !b1(self)[i] { unimplemented!() }
         /// `any()`: a 1-element boolean tensor
         #[verifier::external_body]
         pub fn any(self) -> (r: Tensor<B, 1, Bool>) ensures b1(r).len() == 1, b1(r)[0] == (exists |i: int| 0 <= i < b1(self).len() && #[trigger] b1(self)[i]) { unimplemented!() }
